@@ -350,7 +350,7 @@ func bmpOf(pw []rune) []byte {
 func TestC21(t *testing.T) {
 	m := mon.New(t, "C21")
 	defer m.Done()
-	m.Rule("streams: (openssl) the OpenSSL 3.0 CLI generates RSA-2048/P-256 keys with certificates and exports legacy PFX files (PBE-SHA1-RC2-40 / PBE-SHA1-3DES in both roles, HMAC-SHA1, -iter {1,2,2048,4096, random 1..4096}, -nomaciter, -name) under passwords of 0..40 characters from ASCII, Latin-1, CJK, BMP edge code points and mixtures (via -passout file:); each file is first opened with the harness' own reference stack (RFC 7292 App. B KDF + 3DES/RC2 + HMAC) — disagreement there is an oracle conflict — then pkcs12.Decode and ToPEM must return exactly that key (Equal) and certificate (DER), a derived wrong password must give ErrIncorrectPassword from both, and a non-BMP password must give an error; (crafted) PFX files assembled by the harness (own DER writer, reference KDF) sweep what the CLI cannot: salt lengths 0..200 around the 64-octet block, password lengths around the block, iterations 1..4096, both empty-password conventions (BMP 0x0000 and empty octet string), NUL and noncharacter code points, omitted DEFAULT mac iterations, all four PBE algorithm assignments; a sample is read back by OpenSSL; (padding) crafted files whose PKCS#7 padding is wrong (0, > 8, inconsistent octets) on either bag must yield an error; (mutations) fault enumeration over three crafted base files at four layers — L0 raw file octets, L1 AuthenticatedSafe octets with the MAC recomputed, L2c certificate SafeContents plaintext re-encrypted and re-MACed, L2k PKCS#8 plaintext likewise — each octet × {xor 1, xor 0x80, set 0, set 0xff} plus every truncation, plus random 2-4 octet mutations, plus sampled L0 mutations of an OpenSSL-made file: Decode and ToPEM must return (value or error), never panic; every strict prefix of a file must be an error. distinct key = (stream, key type, password class, length classes, algorithms) resp. (base, layer, op, outcome class); non-trivial = the file was opened by the reference stack or built by it, and the result was judged. (concurrent) 6 goroutines released from a barrier call Decode, ToPEM and Decode-with-a-wrong-password — three on the very same PFX slice and password, three on their own crafted files; results judged after the join; one case in four under GOMAXPROCS(1); the same stream alone is run in a -race build. Cross-cutting monitors: the last 12 results (certificate Raw bytes, private key, PEM block bytes) are re-verified after every later call; the PFX octets carry sentinel spare capacity and must be unchanged after every call")
+	m.Rule("streams: (openssl) the OpenSSL 3.0 CLI generates RSA-2048/P-256 keys with certificates and exports legacy PFX files (PBE-SHA1-RC2-40 / PBE-SHA1-3DES in both roles, HMAC-SHA1, -iter {1,2,2048,4096, random 1..4096}, -nomaciter, -name) under passwords of 0..40 characters from ASCII, Latin-1, CJK, BMP edge code points and mixtures (via -passout file:); each file is first opened with the harness' own reference stack (RFC 7292 App. B KDF + 3DES/RC2 + HMAC) — disagreement there is an oracle conflict — then pkcs12.Decode and ToPEM must return exactly that key (Equal) and certificate (DER), a derived wrong password must give ErrIncorrectPassword from both, and a non-BMP password must give an error; (crafted) PFX files assembled by the harness (own DER writer, reference KDF) sweep what the CLI cannot: salt lengths 0..200 around the 64-octet block, password lengths around the block, iterations 1..4096, both empty-password conventions (BMP 0x0000 and empty octet string), NUL and noncharacter code points, omitted DEFAULT mac iterations, all four PBE algorithm assignments; a sample is read back by OpenSSL; (shortblocks) a search with the reference KDF's step-6.C observer over 4M+ (password, salt, iterations 1..3) triples finds 3DES key derivations whose I-blocks come out of I_j+B+1 short by one / by two or more octets, several short blocks in one derivation (equal, later one shorter, later one longer) and carry-out with a leading zero octet — classes of probability 2^-8…2^-16 that bignum implementations must pad or truncate — and each witness is presented in a crafted 3DES/3DES file that must decode to key and certificate; (padding) crafted files whose PKCS#7 padding is wrong (0, > 8, inconsistent octets) on either bag must yield an error; (mutations) fault enumeration over three crafted base files at four layers — L0 raw file octets, L1 AuthenticatedSafe octets with the MAC recomputed, L2c certificate SafeContents plaintext re-encrypted and re-MACed, L2k PKCS#8 plaintext likewise — each octet × {xor 1, xor 0x80, set 0, set 0xff} plus every truncation, plus random 2-4 octet mutations, plus sampled L0 mutations of an OpenSSL-made file: Decode and ToPEM must return (value or error), never panic; every strict prefix of a file must be an error. distinct key = (stream, key type, password class, length classes, algorithms) resp. (base, layer, op, outcome class); non-trivial = the file was opened by the reference stack or built by it, and the result was judged. (concurrent) 6 goroutines released from a barrier call Decode, ToPEM and Decode-with-a-wrong-password — three on the very same PFX slice and password, three on their own crafted files; results judged after the join; one case in four under GOMAXPROCS(1); the same stream alone is run in a -race build. Cross-cutting monitors: the last 12 results (certificate Raw bytes, private key, PEM block bytes) are re-verified after every later call; the PFX octets carry sentinel spare capacity and must be unchanged after every call")
 	m.Assume("ref/pkcs12kdf is validated against OpenSSL's PKCS12KDF provider in its unit test and, in every openssl-stream case here, by opening OpenSSL's file; 3DES comes from the Go standard library (a primitive pkcs12 uses too), RC2 from nettle, HMAC-SHA1 and X.509/PKCS#8 parsing from the Go standard library; OpenSSL 3.0 with the legacy provider is the interoperability witness")
 	m.Assume("success on a mutated file is accepted (the statement demands error-not-panic only); trailing garbage after the PFX and unknown attributes are observed, not judged")
 
@@ -373,6 +373,7 @@ func TestC21(t *testing.T) {
 	c21OpenSSL(m)
 	c21Crafted(m, rsaFix, ecFix)
 	c21Padding(m, rsaFix, ecFix)
+	c21ShortBlocks(m, ecFix)
 	c21Mutations(m, rsaFix, ecFix)
 
 	c21Ret.verify("end of run")
@@ -391,6 +392,12 @@ func TestC21(t *testing.T) {
 	m.Gate("crafted_salt_block_edge", m.N(100, 2000), "salt length 63/64/65/127/128/129 or 0")
 	m.Gate("crafted_read_by_openssl", m.N(6, 60), "crafted files confirmed by OpenSSL")
 	m.Gate("wrong_password_cases", m.N(1400, 28000), "wrong passwords judged")
+	for _, c := range c21BlockClasses {
+		if c == "one-short:2+" || c == "several-short:later-longer-number" {
+			continue // 2^-16 and rarer for the generator's shapes: counted and judged when found, not demanded
+		}
+		m.Gate("shortblocks:"+c, m.N(3, 20), "3DES key derivations whose step-6.C blocks are of class "+c+" (found with the reference KDF's observer), decoded")
+	}
 	m.Gate("bad_padding_cases", m.N(250, 2500), "wrong PKCS#7 padding must be an error")
 	m.Gate("mut_cases", m.N(20000, 900000), "mutated files run through Decode and ToPEM")
 	m.Gate("mut_past_mac", m.N(8000, 400000), "mutations below the MAC (re-MACed) that reached the parsers behind it")
@@ -936,4 +943,130 @@ func c21Mutations(m *mon.M, rsaFix, ecFix *p12Key) {
 			c21Mutant(m, append([]byte{}, b.pfx[:i]...), b.password, b.name, "L0", "trunc", true)
 		})
 	}
+}
+
+// ---------- short / wrapping blocks in step 6.C ----------
+
+// c21BlockClass names what step 6.C of the key derivation did to the v-octet
+// blocks of I in the round that feeds the second half of a 24-octet 3DES key:
+// implementations that add with bignums must left-pad results that came out
+// short (leading zero octets) and truncate results that carried out.
+func c21BlockClass(zs []int, carry []bool) string {
+	var short []int // leading-zero counts of the blocks that did not carry out, in block order
+	wrapZero := false
+	for k, z := range zs {
+		if carry[k] {
+			if z > 0 {
+				wrapZero = true
+			}
+			continue
+		}
+		if z > 0 {
+			short = append(short, z)
+		}
+	}
+	switch {
+	case len(short) >= 2:
+		inc, dec := false, false
+		for k := 1; k < len(short); k++ {
+			inc = inc || short[k] > short[k-1]
+			dec = dec || short[k] < short[k-1]
+		}
+		switch {
+		case inc && dec:
+			return "several-short:mixed"
+		case inc:
+			return "several-short:later-shorter-number"
+		case dec:
+			return "several-short:later-longer-number"
+		}
+		return "several-short:equal"
+	case len(short) == 1 && short[0] >= 2:
+		return "one-short:2+"
+	case len(short) == 1:
+		return "one-short:1"
+	case wrapZero:
+		return "carry-out-with-leading-zero"
+	}
+	return ""
+}
+
+var c21BlockClasses = []string{"one-short:1", "one-short:2+", "several-short:equal", "several-short:later-shorter-number", "several-short:later-longer-number", "carry-out-with-leading-zero"}
+
+// c21ShortBlocks searches, with the reference KDF's step-6.C observer, for
+// (password, salt, iterations) whose 3DES key derivation hits each block class
+// and presents each witness to pkcs12.Decode inside a crafted PFX (both bags
+// PBE-SHA1-3DES under that salt). The classes have probability 2^-8 … 2^-16 per
+// derivation, which is why random files never reach them.
+func c21ShortBlocks(m *mon.M, ecFix *p12Key) {
+	const trials = 8192
+	m.Cases("shortblocks", m.N(512, 4096), func(i int64, r *rand.Rand) {
+		seen := map[string]int{}
+		for t := 0; t < trials; t++ {
+			// 32 ASCII characters: BMP+terminator = 66 octets = two password blocks
+			// starting 00 c and 00 00 00 c; other lengths and scripts mixed in
+			var pw []rune
+			switch t % 4 {
+			case 0, 1:
+				pw = make([]rune, 32)
+				for k := range pw {
+					pw[k] = rune(0x21 + r.IntN(0x5e))
+				}
+			case 2:
+				pw = make([]rune, 31+r.IntN(4))
+				for k := range pw {
+					pw[k] = rune(0x21 + r.IntN(0x5e))
+				}
+			default:
+				pw = make([]rune, 1+r.IntN(40))
+				for k := range pw {
+					pw[k] = rune(r.IntN(0x300))
+				}
+			}
+			salt := mon.Bytes(r, mon.Pick(r, []int{8, 8, 8, 16, 20, 64, 65}))
+			if t%2 == 0 {
+				salt[0] = 0
+			}
+			if t%8 >= 6 {
+				salt[0], salt[1] = 0, 0
+			}
+			iter := 1 + t%3
+			pwOctets := bmpOf(pw)
+			var zs []int
+			var carry []bool
+			kdf.SHA1Trace(kdf.IDKey, pwOctets, salt, iter, 24, func(round, block, z int, c bool) {
+				if round == 1 {
+					zs, carry = append(zs, z), append(carry, c)
+				}
+			})
+			m.Count("shortblocks_derivations_searched", 1)
+			class := c21BlockClass(zs, carry)
+			if class == "" || seen[class] >= 2 {
+				continue
+			}
+			seen[class]++
+			s := &p12Spec{
+				pw: pwOctets, macSalt: mon.Bytes(r, 8), macIter: 1,
+				certAlg: alg3DES, certSalt: salt, certIter: iter,
+				keyAlg: alg3DES, keySalt: salt, keyIter: iter,
+				certDER: ecFix.certDER, pkcs8: ecFix.pkcs8,
+			}
+			pfx, _, err := s.build()
+			if err != nil {
+				m.Inconclusive("crafter failed: " + err.Error())
+				return
+			}
+			wit := map[string]any{"key": ecFix.name, "block_class": class, "leading_zero_octets_per_block": fmt.Sprint(zs), "carry_out_per_block": fmt.Sprint(carry),
+				"password_runes": fmt.Sprintf("%U", pw), "salt": mon.Hex(salt), "iterations": iter, "alg": "3DES/3DES"}
+			if !c21Judge(m, pfx, string(pw), ecFix, "shortblocks:"+class, wit) {
+				return
+			}
+			m.Count("shortblocks_files_decoded", 1)
+			m.Count("shortblocks:"+class, 1)
+			m.Distinct(fmt.Sprintf("shortblocks %s blocks=%d iter=%d", class, len(zs), iter))
+			if i < 1 && seen[class] == 1 {
+				m.Sample(wit)
+			}
+		}
+	})
 }
